@@ -53,7 +53,7 @@ func paddingLiteralDepth(v ssa.Value, depth int) bool {
 			if callee := call.Call.StaticCallee(); callee != nil && FuncInModule(callee) && callee.Blocks != nil && strings.HasSuffix(call.Type().String(), "structlayout.Field") {
 				all := len(Returns(callee)) > 0
 				for _, r := range Returns(callee) {
-					if len(r.Results) != 1 || !paddingLiteralDepth(r.Results[0], depth+1) {
+					if len(r.Results) != 1 || !paddingLiteralDepth(ReturnOperand(r, 0), depth+1) {
 						all = false
 					}
 				}
@@ -169,7 +169,7 @@ func runC19(c *Ctx) {
 		c.Check(FuncKey(swap)+"::transposition", swap.Pos(), okSwap, "Swap must exchange exactly the two elements i and j of the list (found element moves %v); anything else duplicates or loses a field", stores)
 		okLen := false
 		for _, r := range Returns(length) {
-			if call, ok := r.Results[0].(*ssa.Call); ok && IsCallTo(call, "builtin.len") && AccessPath(call.Call.Args[0]) != "" {
+			if call, ok := ReturnOperand(r, 0).(*ssa.Call); ok && IsCallTo(call, "builtin.len") && AccessPath(call.Call.Args[0]) != "" {
 				okLen = strings.HasSuffix(AccessPath(call.Call.Args[0]), ".fields") || strings.Contains(AccessPath(call.Call.Args[0]), "fields")
 			}
 		}
